@@ -202,6 +202,18 @@ def _gen_sctp_send():
     m.raw("Definition fr_ssthresh_std (c : Z) : Z := %s." % _expr(m, g.group(3).strip(), envf), "handle_sack: beta 0.5 branch", SCTP)
     g = _need(r"const\s+FAST_RECOVERY_REENTRY_COOLDOWN\s*:\s*Duration\s*=\s*Duration::from_millis\((\d+)\)\s*;", src, "FAST_RECOVERY_REENTRY_COOLDOWN")
     m.raw("Definition FAST_RECOVERY_REENTRY_COOLDOWN_MS : Z := %s." % g.group(1), "const FAST_RECOVERY_REENTRY_COOLDOWN", SCTP)
+    # every Gap Ack Block of the SACK is parsed: the loop runs over the count field of the header as it
+    # is, bounded only by the bytes present (a clamp on the number of blocks would leave chunks that the
+    # peer acknowledged in the sent queue)
+    _need(r"let\s+cumulative_tsn_ack\s*=\s*buf\.get_u32\(\)\s*;\s*let\s+a_rwnd\s*=\s*buf\.get_u32\(\)\s*;\s*"
+          r"let\s+num_gap_ack_blocks\s*=\s*buf\.get_u16\(\)\s*;\s*let\s+_num_duplicate_tsns\s*=\s*buf\.get_u16\(\)\s*;", b, "handle_sack SACK header fields")
+    _need(r"let\s+mut\s+gap_blocks\s*=\s*Vec::new\(\)\s*;\s*for\s+_\s+in\s+0\.\.num_gap_ack_blocks\s*\{\s*if\s+buf\.remaining\(\)\s*<\s*4\s*\{\s*break\s*;\s*\}\s*"
+          r"gap_blocks\.push\(\(buf\.get_u16\(\),\s*buf\.get_u16\(\)\)\)\s*;\s*\}", b, "handle_sack gap block loop (all blocks parsed, no clamp)")
+    if len(re.findall(r"num_gap_ack_blocks", b)) != 2:
+        raise Untranslatable("handle_sack: num_gap_ack_blocks is used beyond the header read and the parse loop (clamped / rebound?)")
+    _need(r"apply_sack_to_sent_queue\(\s*&mut\s+sent_queue,\s*cumulative_tsn_ack,\s*&gap_blocks,\s*now,\s*count_missing_reports,\s*self\.max_tsn_retransmits,?\s*\)", b,
+          "handle_sack passes all parsed blocks to apply_sack_to_sent_queue")
+    m.raw("Definition SACK_GAP_BLOCKS_PARSED_UNBOUNDED : bool := true.", "handle_sack: every Gap Ack Block present is parsed and applied", SCTP)
     g = _need(r"let\s+mut\s+sig\s*=\s*\(cumulative_tsn_ack\s+as\s+u64\)\s*<<\s*32\s*;.*?let\s+block\s*=\s*\(\(\*start\s+as\s+u64\)\s*<<\s*16\)\s*\|\s*\(\*end\s+as\s+u64\)\s*;"
               r"\s*sig\s*=\s*sig\s*\.wrapping_mul\((0x[0-9a-fA-F]+)\)\s*\.wrapping_add\(block\s*\^\s*\(sig\s*>>\s*32\)\)\s*;", b, "SACK signature")
     m.raw("Definition SACK_SIG_MUL : Z := %d." % int(g.group(1), 16), "handle_sack: signature multiplier", SCTP)
@@ -221,6 +233,9 @@ def _gen_sctp_send():
     _need(r"if\s*\(max_reported\.wrapping_sub\(lowest_tsn\)\s+as\s+i32\)\s*<\s*0\s*\{\s*return\s+SackOutcome::default\(\);", b, "apply_sack late-SACK second test")
     _need(r"if\s+record\.missing_reports\s*>=\s*DUP_THRESH\s*&&\s*!record\.abandoned\s*&&\s*can_fast_retransmit\s*\{", b, "apply_sack fast retransmit test")
     _need(r"record\.payload\s*=\s*Bytes::new\(\)\s*;", b, "apply_sack gap-ack payload drop")
+    _need(r"for\s*\(start,\s*end\)\s+in\s+gap_blocks\s*\{\s*let\s+s\s*=\s*cumulative_tsn_ack\.wrapping_add\(\*start\s+as\s+u32\)\s*;", b, "apply_sack gap block loop")
+    if len(re.findall(r"for\s*\(_?start,\s*end\)\s+in\s+gap_blocks\s*\{", b)) != 3:
+        raise Untranslatable("apply_sack: expected three loops over all gap_blocks (two max_reported scans, one marking loop)")
 
     # ---------------------------------------------------------------- TLP
     _, _, b = find_fn(src, "maybe_send_tlp_probe", "SctpInner")
